@@ -75,24 +75,26 @@ Definition cross_storage {dx pc} (crosses : list (M O dx pc)) : M O dx (pc * len
   mbuild dx (pc * length crosses)
          (fun r c => mget (nth (c / pc) crosses (mzero dx pc)) r (c mod pc)).
 
-(* K = Pxy.middleCols(meas_size * i, meas_size) * Pyy_i^{-1} ; the slice is as wide as Pyy_i
-   (for a linear measurement description meas_size = dim_covariance of the output) *)
-Definition ukf_gain {dx pc k} (Pxy : M O dx (pc * k)) (meas_size i : nat) (Pyy : M O pc pc) : M O dx pc :=
-  mmul (mslice 0 (meas_size * i) dx pc Pxy) (minv Pyy).
+(* K = Pxy.middleCols(meas_cov_size * i, meas_cov_size) * Pyy_i^{-1} with
+   meas_cov_size = predicted_meas_.dim_covariance: offset and width of the slice are the
+   covariance size of the transformed (predicted-measurement) mixture.  The width is the
+   type index pc of Pyy_i; the caller passes the same number as [meas_cov_size]. *)
+Definition ukf_gain {dx pc k} (Pxy : M O dx (pc * k)) (meas_cov_size i : nat) (Pyy : M O pc pc) : M O dx pc :=
+  mmul (mslice 0 (meas_cov_size * i) dx pc Pxy) (minv Pyy).
 
 (* body of the component loop, UKFCorrection.cpp:153-166, as one C01 output record *)
-Definition ukf_correct_comp {n m k} (Pxy : M O n (m * k)) (meas_size i : nat)
+Definition ukf_correct_comp {n m k} (Pxy : M O n (m * k)) (meas_cov_size i : nat)
            (xP : M O n 1 * M O n n) (Pyy : M O m m) (nu : M O m 1) : kf_out O n m :=
-  let K := ukf_gain Pxy meas_size i Pyy in
+  let K := ukf_gain Pxy meas_cov_size i Pyy in
   mkKfOut (mkGcomp (madd (fst xP) (mmul K nu))
                    (msub (snd xP) (mmul (mmul K Pyy) (mtr K))))
           nu Pyy.
 
-Definition ukf_correct_loop {n m} (meas_size : nat) (pred : list (M O n 1 * M O n n))
+Definition ukf_correct_loop {n m} (meas_cov_size : nat) (pred : list (M O n 1 * M O n n))
            (r : ut_result O m m n) (nus : list (M O m 1)) : list (kf_out O n m) :=
   let Pxy := cross_storage (map (fun u => uc_cross u) (ur_comps r)) in
   map (fun q : nat * ((M O n 1 * M O n n) * (ut_comp O m m n * M O m 1)) =>
-         ukf_correct_comp Pxy meas_size (fst q) (fst (snd q)) (uc_cov (fst (snd (snd q)))) (snd (snd (snd q))))
+         ukf_correct_comp Pxy meas_cov_size (fst q) (fst (snd q)) (uc_cov (fst (snd (snd q)))) (snd (snd (snd q))))
       (combine (seq 0 (length pred)) (combine pred (combine (ur_comps r) nus))).
 
 (* "corr.mean(i) = ..., corr.covariance(i) = ..." on an object that already holds [old] *)
@@ -102,7 +104,7 @@ Definition overwrite_prefix {A} (new old : list A) : list A := new ++ skipn (len
    transform through the measurement model (None: invalid).  correctStep starts by
    emptying innovations_ (no likelihood until this correction has used a measurement);
    [st_old] is kept as an argument only to show that nothing else of it survives. *)
-Definition ukf_correct_finish {n m} (meas_size : nat) (y : M O m 1)
+Definition ukf_correct_finish {n m} (meas_cov_size : nat) (y : M O m 1)
            (innovation : list (M O m 1) -> M O m 1 -> option (list (M O m 1)))
            (ut : option (ut_result O m m n))
            (pred corr_old : mixture n n) (st_old : ukf_state m)
@@ -114,7 +116,7 @@ Definition ukf_correct_finish {n m} (meas_size : nat) (y : M O m 1)
       match innovation (map (fun u => uc_mean u) (ur_comps r)) y with
       | None => (pred, mkUkfState [] Pyy, [])
       | Some nus =>
-          let outs := ukf_correct_loop meas_size (mx_comps pred) r nus in
+          let outs := ukf_correct_loop meas_cov_size (mx_comps pred) r nus in
           (mkMix (mx_layout corr_old)
                  (overwrite_prefix (map (fun o => (gmean (ko_comp o), gcov (ko_comp o))) outs) (mx_comps corr_old))
                  (mx_weights corr_old),
@@ -122,7 +124,10 @@ Definition ukf_correct_finish {n m} (meas_size : nat) (y : M O m 1)
       end
   end.
 
-(* additive constructor: weights from getInputDescription().noiseless_description() *)
+(* additive constructor: weights from getInputDescription().noiseless_description().
+   predicted_meas_ is built from the linear / circular components of the measurement
+   description (its noise components are dropped), so predicted_meas_.dim_covariance is
+   l_dcov (l_noiseless Lmeas) *)
 Definition ukf_correct_additive {n m} (Ldesc Lmeas : layout) (alpha beta kappa : t) (skip : bool)
            (measure : option (M O m 1))
            (predicted : list (M O n 1) -> option (list (M O m 1)))
@@ -134,7 +139,7 @@ Definition ukf_correct_additive {n m} (Ldesc Lmeas : layout) (alpha beta kappa :
   | None => (pred, mkUkfState [] (us_Pyy st_old), [])   (* correctStep starts with innovations_.resize(0, 0) *)
   | Some y =>
       let w := ut_weights_of (l_noiseless Ldesc) alpha beta kappa in
-      ukf_correct_finish (l_dim Lmeas) y innovation
+      ukf_correct_finish (l_dcov (l_noiseless Lmeas)) y innovation
         (ut_additive_meas (mx_layout pred) (l_noiseless Lmeas) m n w (mx_comps pred) predicted R)
         pred corr_old st_old
   end.
@@ -152,7 +157,7 @@ Definition ukf_correct_generic {n q m} (Ldesc Lmeas : layout) (alpha beta kappa 
   | None => (pred, mkUkfState [] (us_Pyy st_old), [])   (* correctStep starts with innovations_.resize(0, 0) *)
   | Some y =>
       let w := ut_weights_of Ldesc alpha beta kappa in
-      ukf_correct_finish (l_dim Lmeas) y innovation
+      ukf_correct_finish (l_dcov (l_noiseless Lmeas)) y innovation
         (ut_meas (l_add_noise (mx_layout pred) q) (l_noiseless Lmeas) m n w
                  (map (augment_comp Rv) (mx_comps pred)) predicted)
         pred corr_old st_old
